@@ -183,6 +183,9 @@ impl Prop for C20 {
     fn id(&self) -> &'static str {
         "C20"
     }
+    fn fuzz_target(&self) -> Option<&'static str> {
+        Some("tape")
+    }
     fn rule(&self) -> String {
         "stateful: 2-5 Boolean terminals (1-bit symbols; with lower weight comparisons of 2-3-bit data symbols and Boolean ite/iff, which real guards contain) and 2 data symbols; a history of <= 12 operations new / apply_bin_op (and/or/xor/add/sub, incl. operands sharing guards) / apply_ite / coalesce / import_into_guard building summaries, plus expr_to_guard of generated Boolean expressions. Through the verif-hooks accessors, for EVERY valuation of the underlying symbols (exhaustive, <= 2^11): exactly one entry guard is true; the selected entry's value (reference evaluator) equals the operation applied to the arguments' denotations (shadow denotation expression carried per summary); coalesce leaves no two entries with the same value; import_into_guard leaves <= 2 entries with values true/false; expr_to_guard(e) evaluates like e. Non-trivial: history with an apply_ite, a cross-product apply_bin_op (no common guard) and a coalesce that merges >= 2 entries; distinct by hash of the tape.".into()
     }
